@@ -43,6 +43,12 @@ TABLE = {
             'return nothing iff no candidate, the preferred one only under contains(candidates, preferred), otherwise ranges::max with the default order; availability arms read exactly the credential their '
             'mechanism consumes; no sendData is reachable when initSaslAuthentication reported an error.',
             'Trusts libstdc++ views/max; chooseMechanism and onSasl2Authenticate are analysed on clang 14\'s error-recovered AST (degraded; the vector-from-view initialisation is assumed).', 'DESIGN.md §2 C05'),
+    'C01': ('writer/reader name-agreement analysis over all ~144 codec classes (resolved QXmlStreamWriter/QDom call facts per class closure), table/enumerator and toString/fromString sibling agreement, typed-helper bounds, single-consumption and escaping (who-may-write-raw) rules',
+            'Static, structural necessary conditions of round-trip identity for every codec class at once: names written from fields ⊆ names read; root written = root accepted; enum tables match enumerators and no reachable '
+            'index is out of range; every string a toString can produce is accepted by its fromString; stringToInt<T> uses T\'s own limits; typed children are not re-captured generically; values reach the output only '
+            'through escaping QXmlStreamWriter calls and element/attribute names are never free text. It found four genuine round-trip defects the 388 test rows miss.',
+            'Does not decide value-level equality after a round trip (dates, base64, whitespace, numeric formatting), optional-field combinations or sibling order; element names are matched class-wide (a reader that '
+            'iterates over all children accepts any child name).', 'DESIGN.md §2 C01'),
 }
 
 NOT_APPLICABLE_REASON = 'check not built yet in this session (see DESIGN.md); listed here until qxverif/rules/<id>.py exists'
